@@ -74,5 +74,16 @@ GROUP = {
                              "match \\1 { Ok(\\2) => Ok(\\3), Err(e__) => Err(e__) }", 1)]),
         impl_unit("fmt_with_alignment for Amount", r"impl DisplayWithAlignment for WithContext<'_, expr::Amount<'_>>",
                   rewrites=[("R24-str-model", "re:\\b(\\w+)\\.as_str\\(\\)\\.len\\(\\)", "str_byte_len(\\1.as_str())", 2), ("R51-to-string", "re:(rescale\\([^;]*?\\))\\.to_string\\(\\)", "to_string_of(&\\1)", 1)]),
+        # the blanket `impl Display for WithContext<T> where Self: DisplayWithAlignment`: `{}` prints what fmt_with_alignment appends
+        U("Display for WithContext<T: DisplayWithAlignment>", D, [r"impl<T> fmt::Display for WithContext<'_, T>"], fn="fmt", lifetimes="keep",
+      rewrites=[RET(), ("R1-formatter", "fmt::Formatter<'_>", "fmt::Formatter", 1),
+                ("R8-drop-trait", "impl<T> fmt::Display for WithContext<'_, T>", "impl<T> WithContext<'_, T>", 1),
+                ("R34d-result-map", "re:(self\\.fmt_with_alignment\\(f\\))\\.map\\(\\|_\\| \\(\\)\\)", "match \\1 { Ok(_) => Ok(()), Err(e__) => Err(e__) }", 1)],
+      contract="""
+        requires utf8_len(self.tx()) <= usize::MAX,
+        ensures
+            // what `{}` prints for an expression under a context IS the text fmt_with_alignment appends (the alignment is dropped)
+            r is Ok ==> final(f).text() =~= old(f).text() + self.tx(),   // @WithContext.fmt.display_is_the_aligned_text
+"""),
     ],
 }
